@@ -353,7 +353,8 @@ class MediaCombineDisallowed(Exception):
         return self.args[0]
 
     def _combinable(rule):
-        combinable = rule.COMMENT, rule.STYLE_RULE, rule.IMPORT_RULE
+        # a kept @import cannot move into @media either
+        combinable = rule.COMMENT, rule.STYLE_RULE
         return rule.type in combinable
 
 
